@@ -1,12 +1,14 @@
 /-
   C16 — scrypt.Key returns the RFC 7914 key or an error, never a panic.
   Property theorems over XC.Model.C16 (core Lean only).
-  Helper lemmas: Proofs/C16_Arith (accepted ⇒ no overflow), Proofs/C16_NoPanic (bounds), Proofs/C16_Rfc.
+  Helper lemmas: Proofs/C16_Arith (accepted ⇒ no overflow), Proofs/C16_NoPanic (bounds), Proofs/C16_Rfc
+  (block level = RFC 7914), Proofs/C16_Refine, _RefineMix, _RefineSmix, _RefineBytes, _RefineKey (flat memory = block level).
 -/
 import XC.Model.C16
 import XC.Proofs.C16_NoPanic
 import XC.Proofs.C16_Arith
 import XC.Proofs.C16_Rfc
+import XC.Proofs.C16_RefineKey
 namespace XC.C16
 open XC
 
@@ -81,16 +83,115 @@ theorem accepted_pow2 {n r p k : Int} (hkI : k < 2 ^ 63) (h : validate n r p k =
   obtain ⟨m, hm, e⟩ := andPred_pow2 n2 np
   exact ⟨m, hm, by omega⟩
 
-/-- The full statement over the model. What is proved: `key_total` (error or exactly keyLen bytes,
-    no panic), `scryptSpec_impl_eq_rfc` + `accepted_pow2` (the block-level algorithm with the code's
-    loop structure is RFC 7914). What is only checked at run time by the driver on every accepted
-    input (`model-split` otherwise): that the flat-memory execution `Key` produces the same bytes as
-    the block-level `scryptSpec false`. -/
+/-- The full statement over the model: for all Go-int arguments, the error outcome or exactly the
+    RFC 7914 key. Proved below (`C16_full_holds`) through the refinement chain of Proofs/C16_Refine*:
+    flat []uint32 memory with slice views (L1) → blocks (`blockMixGo_refine`, `smixGo_refine`,
+    `smixAll_refine`) → RFC 7914 (`scryptSpec true`). -/
 def C16_full : Prop :=
   ∀ (pw salt : Bytes) (n r p k : Int), k < 2 ^ 63 →
     Key pw salt n r p k = .err ∨
     ∃ key, Key pw salt n r p k = .ok key ∧
       scryptSpec true pw salt n.toNat r.toNat p.toNat k.toNat = some key
+
+/-! ## 5. end to end -/
+
+theorem pbkdf2Std_eq (pw salt : Bytes) (iter : Nat) (k : Int) (h1 : 1 ≤ k) (h2 : k ≤ (2 ^ 32 - 1) * 32) :
+    pbkdf2Std pw salt iter k = some ((pbkdf2Blocks pw salt iter ((k.toNat + 31) / 32) 1).take k.toNat) := by
+  unfold pbkdf2Std
+  rw [if_neg (by omega)]
+  have hw : wrap64 (k + 32) = k + 32 := wrap64_id (by omega) (by omega)
+  have hd : (k + 32 - 1).tdiv 32 = (k + 32 - 1) / 32 := Int.tdiv_eq_ediv_of_nonneg (by omega)
+  simp only [hw, hd]
+  rw [if_neg (by omega)]
+  have : ((k + 32 - 1) / 32).toNat = (k.toNat + 31) / 32 := by omega
+  rw [this]
+
+theorem romixBytes_true (n : Nat) :
+    romixBytes true n = fun c => some (bytesOfBlks (romixRfc n (blksOfBytes c))) := by
+  funext c; simp [romixBytes]
+
+theorem scryptSpec_true_eq (pw salt : Bytes) (n r p dk : Nat) :
+    scryptSpec true pw salt n r p dk =
+      some ((pbkdf2Blocks pw (mapChunks (128 * r) (fun c => bytesOfBlks (romixRfc n (blksOfBytes c))) p
+        ((pbkdf2Blocks pw salt 1 ((p * 128 * r + 31) / 32) 1).take (p * 128 * r))) 1 ((dk + 31) / 32) 1).take dk) := by
+  unfold scryptSpec
+  simp only [romixBytes_true, mapChunksM_some, Option.map_some]
+
+/-- **scrypt_key_eq_rfc7914.** For every accepted argument tuple the flat-memory execution of
+    scrypt.Key returns exactly RFC 7914 scrypt (over the XC.Prim HMAC-SHA-256 stand-in). -/
+theorem scrypt_key_eq_rfc7914 (pw salt : Bytes) (n r p k : Int) (hkI : k < 2 ^ 63)
+    (hv : validate n r p k = .accept) :
+    ∃ key, Key pw salt n r p k = .ok key ∧
+      scryptSpec true pw salt n.toNat r.toNat p.toNat k.toNat = some key := by
+  unfold Key
+  cases hc : validate n r p k with
+  | divPanic => rw [hv] at hc; cases hc
+  | errN => rw [hv] at hc; cases hc
+  | errRP => rw [hv] at hc; cases hc
+  | errLarge => rw [hv] at hc; cases hc
+  | errKeyLen => rw [hv] at hc; cases hc
+  | accept =>
+  obtain ⟨n2, _, r1, p1, _, nr, _, _⟩ := accepted_of_validate hkI hv
+  obtain ⟨hrp, _, _, _, w1, w2, w3, k1, kmax⟩ := validate_no_overflow hkI hv
+  obtain ⟨mm, hm1, hpow⟩ := accepted_pow2 hkI hv
+  obtain ⟨N, rfl⟩ := Int.eq_ofNat_of_zero_le (by omega : 0 ≤ n)
+  obtain ⟨R, rfl⟩ := Int.eq_ofNat_of_zero_le (by omega : 0 ≤ r)
+  obtain ⟨P, rfl⟩ := Int.eq_ofNat_of_zero_le (by omega : 0 ≤ p)
+  rw [Int.toNat_natCast] at hpow
+  have hm2 : mm ≤ 63 := by
+    have hN : (N : Int) ≤ 2 ^ 56 - 1 := by
+      have : (N : Int) * 1 ≤ N * R := Int.mul_le_mul_of_nonneg_left r1 (by omega)
+      omega
+    have hN' : N ≤ 2 ^ 56 - 1 := by omega
+    by_cases h : mm ≤ 63
+    · exact h
+    · have : 2 ^ 56 ≤ 2 ^ mm := Nat.pow_le_pow_right (by omega) (by omega)
+      omega
+  rw [w1, w2, w3]
+  have c1 : (64 * (R : Int)) = ((64 * R : Nat) : Int) := by push_cast; rfl
+  have c2 : (32 * (N : Int) * R) = ((N * (32 * R) : Nat) : Int) := by
+    push_cast; rw [Int.mul_comm 32 (N : Int), Int.mul_assoc]
+  have c3 : ((P : Int) * 128 * R) = ((P * 128 * R : Nat) : Int) := by push_cast; rfl
+  have m1 : makeLen (64 * (R : Int)) = some (64 * R) := by rw [c1]; exact makeLen_natCast _
+  have m2 : makeLen (32 * (N : Int) * R) = some (N * (32 * R)) := by rw [c2]; exact makeLen_natCast _
+  rw [m1, m2]
+  simp only
+  have hb1 : (1 : Int) ≤ (P : Int) * 128 * R := by
+    have : (1 : Int) * 1 ≤ (R : Int) * P := Int.mul_le_mul r1 p1 (by omega) (by omega)
+    rw [Int.mul_comm (P : Int) 128, Int.mul_assoc, Int.mul_comm (P : Int) R]; omega
+  have hb2 : (P : Int) * 128 * R ≤ (2 ^ 32 - 1) * 32 := by
+    rw [Int.mul_comm (P : Int) 128, Int.mul_assoc, Int.mul_comm (P : Int) R]; omega
+  rw [pbkdf2Std_eq pw salt 1 _ hb1 hb2, c3, Int.toNat_natCast]
+  simp only [Int.toNat_natCast]
+  -- the p smix calls
+  have hlen : ((pbkdf2Blocks pw salt 1 ((P * 128 * R + 31) / 32) 1).take (P * 128 * R)).length = P * 128 * R := by
+    rw [List.length_take, pbkdf2Blocks_length]; omega
+  have key := smixAll_refine R mm (by omega) hm1 hm2 P 0
+    ⟨((pbkdf2Blocks pw salt 1 ((P * 128 * R + 31) / 32) 1).take (P * 128 * R)).toArray,
+      Array.replicate (2 ^ mm * (32 * R)) 0, Array.replicate (64 * R) 0⟩
+    (by simp) (by simp) (by simp only [List.size_toArray, hlen]; rw [Nat.zero_add, Nat.mul_assoc])
+  rw [← hpow] at key
+  obtain ⟨m', em, hm'⟩ := key
+  rw [em]
+  simp only
+  rw [pbkdf2Std_eq pw m'.b.toList 1 k k1 kmax]
+  refine ⟨_, rfl, ?_⟩
+  rw [scryptSpec_true_eq, hm']
+  show some _ = some _
+  rw [Nat.zero_mul, List.take_zero, List.drop_zero, List.nil_append]
+
+/-- **C16_full holds**: error, or exactly the RFC 7914 key — for all Go-int arguments. -/
+theorem C16_full_holds : C16_full := by
+  intro pw salt n r p k hkI
+  cases hv : validate n r p k with
+  | accept =>
+    right
+    exact scrypt_key_eq_rfc7914 pw salt n r p k hkI hv
+  | divPanic => exact absurd hv (validate_never_div_panics n r p k)
+  | errN => left; unfold Key; rw [hv]
+  | errRP => left; unfold Key; rw [hv]
+  | errLarge => left; unfold Key; rw [hv]
+  | errKeyLen => left; unfold Key; rw [hv]
 
 /-- non-vacuity -/
 example : validate 1024 8 16 64 = .accept := by decide
